@@ -80,7 +80,7 @@ type plan struct {
 }
 
 var stopRoutes = map[string]string{
-	"POST /services/admin/down/":     "router.DownHandler calls RequestShutdown (takes ServerShutdownLock for good, then os.Exit)",
+	"POST /services/admin/down/":      "router.DownHandler calls RequestShutdown (takes ServerShutdownLock for good, then os.Exit)",
 	"POST /services/cluster/shutdown": "cluster.ClusterShutdownHandler ends in router.DownHandler",
 }
 
